@@ -41,6 +41,8 @@ fn main() {
         "C29" | "C30" => c29::run(seed, n, replay, &mut out, a[1].as_str()),
         "C22" | "hcfg" | "hcfg-optimism" => c22::run(seed, n, replay, &mut out),
         "C07" | "frame" => c07::run(seed, n, replay, &mut out),
+        "C08ops" => c08::run_ops(seed, n, replay, &mut out),
+        "C08tx" => c08::run_tx(seed, n, replay, &mut out),
         other => {
             eprintln!("unknown component {other}");
             std::process::exit(2);
